@@ -346,6 +346,7 @@ func newIAVLIterator(tree *iavl.ImmutableTree, start, end []byte, ascending bool
 		quitCh:    make(chan struct{}),
 		initCh:    make(chan struct{}),
 	}
+	simIterStart(iter)
 	go iter.iterateRoutine()
 	go iter.initRoutine()
 	return iter
@@ -353,6 +354,7 @@ func newIAVLIterator(tree *iavl.ImmutableTree, start, end []byte, ascending bool
 
 // Run this to funnel items from the tree to iterCh.
 func (iter *iavlIterator) iterateRoutine() {
+	defer simIterDone(iter)
 	iter.tree.IterateRange(
 		iter.start, iter.end, iter.ascending,
 		func(key, value []byte) bool {
@@ -423,6 +425,7 @@ func (iter *iavlIterator) Value() []byte {
 // Implements types.Iterator.
 func (iter *iavlIterator) Close() {
 	close(iter.quitCh)
+	simIterWait(iter)
 }
 
 //----------------------------------------
